@@ -7,7 +7,8 @@ From Coq Require Import String.
 From Coq Require Import List ZArith QArith Reals Bool Lra Lia Psatz.
 From LNGen Require Import Src_c06 Src_c06_flags.
 From Coquelicot Require Import Coquelicot.
-From LN Require Import C06_Defs C06_Proofs C06_Deriv C06_Transfer C06_Convex2_Defs C06_Convex2 C06_Convex2_Transfer.
+From LNGen Require Import Src_c06rest.
+From LN Require Import C06_Defs C06_Proofs C06_Deriv C06_Transfer C06_Convex2_Defs C06_Convex2 C06_Convex2_Transfer C06_Rest_Defs C06_Rest.
 Import ListNotations.
 Local Open Scope R_scope.
 
@@ -593,3 +594,193 @@ Qed.
 Example C06_nonvacuous_transfer_ext :   (* a concrete rational instance: the quadratic constraint with the non-symmetric P = [[1,4],[0,1]] at x = (1,-1) *)
   (cq_v Qops [[1; 4]; [0; 1]] [0; 0] 0 [1; -1] == -1)%Q /\ Q2R (cq_v Qops [[1; 4]; [0; 1]] [0; 0] 0 [1; -1])%Q = cq_v Rops (QRR [[1; 4]; [0; 1]]%Q) (QR [0; 0]%Q) (Q2R 0) (QR [1; -1]%Q).
 Proof. split; [vm_compute; reflexivity | apply h_cq_v]. Qed.
+
+(* ======================================================================================================================== *)
+(* second extension (C06_Rest): Taylor expansions of the polynomial functions, derivatives of the transcendental ones, witnesses   *)
+(* for the objects declared non-convex, functional constraints / gboost grads / surrogate objectives, maxquad's constructor matrices *)
+(* ======================================================================================================================== *)
+(* f(x + s d) = f(x) + s g(x).d + s^2 R2(x,d) + s^3 R3(x,d) + s^4 R4(x,d) for EVERY real s, with the executable coefficient functions of C06_Rest_Defs.v (every monomial of the remainder has degree >= 2 in d) *)
+Theorem C06_fn_polynomial_taylor :
+  taylor4_on (schumer_v Rops) (schumer_g Rops) (schumer_r2 Rops) (schumer_r3 Rops) (schumer_r4 Rops) /\
+  taylor4_on (styblinski_v Rops) (styblinski_g Rops) (styblinski_r2 Rops) (schumer_r3 Rops) (schumer_r4 Rops) /\
+  taylor4_on (qing_v Rops) (qing_g Rops) (qing_r2 Rops) (schumer_r3 Rops) (schumer_r4 Rops) /\
+  taylor4_on (axis_v Rops) (axis_g Rops) (axis_r2 Rops) (fun _ _ => 0) (fun _ _ => 0) /\
+  taylor4_on (chung_v Rops) (chung_g Rops) (chung_r2 Rops) (chung_r3 Rops) (chung_r4 Rops) /\
+  taylor4_on (sargan_v Rops) (sargan_g Rops) (sargan_r2 Rops) (sargan_r3 Rops) (sargan_r4 Rops) /\
+  taylor4_on (zakharov_v Rops) (zakharov_g Rops) (zakharov_r2 Rops) (zakharov_r3 Rops) (zakharov_r4 Rops) /\
+  taylor4_on (rosenbrock_v Rops) (rosenbrock_g Rops) (rosenbrock_r2 Rops) (rosenbrock_r3 Rops) (rosenbrock_r4 Rops) /\
+  taylor4_on (dixon_v Rops) (dixon_g Rops) (dixon_r2 Rops) (dixon_r3 Rops) (dixon_r4 Rops) /\
+  taylor4_on (powell_v Rops) (powell_g Rops) (powell_r2 Rops) (powell_r3 Rops) (powell_r4 Rops).
+Proof. exact s3_polynomial_taylor. Qed.
+Print Assumptions C06_fn_polynomial_taylor.
+
+(* what a Taylor expansion along every line gives: the explicit expansion at z = x + d and gradient = derivative in every direction *)
+Theorem C06_taylor_gives_expansion_and_derivative : forall f g r2 r3 r4, taylor4_on f g r2 r3 r4 ->
+  (forall x z, length z = length x ->
+     f z = f x + Rdot (g x) (Rvsub z x) + (r2 x (Rvsub z x) + r3 x (Rvsub z x) + r4 x (Rvsub z x))) /\
+  (forall x d, length d = length x -> is_derive (fun s => f (along Rops x s d)) 0 (Rdot (g x) d)).
+Proof. exact s3_taylor_consequences. Qed.
+Print Assumptions C06_taylor_gives_expansion_and_derivative.
+
+(* exponential, cauchy, geometric optimisation, the pieces of chained CB3 I / II and the three chain sums of CB3 II: gradient = derivative along every direction *)
+Theorem C06_fn_transcendental_deriv :
+  (forall x d, length d = length x -> x <> [] -> is_derive (fun s => fexp_v (along Rops x s d)) 0 (Rdot (fexp_g x) d)) /\
+  (forall x d, length d = length x -> is_derive (fun s => fcauchy_v (along Rops x s d)) 0 (Rdot (fcauchy_g x) d)) /\
+  (forall a A x d, length d = length x -> rows_len (length x) A -> length a = length A ->
+     is_derive (fun s => geo_v a A (along Rops x s d)) 0 (Rdot (geo_g a A x) d)) /\
+  (forall a b ea eb,
+     is_derive (fun s => cb3_v1 (a + s * ea) (b + s * eb)) 0 (cb3_p1a 0 a b * ea + cb3_p1b 0 a b * eb) /\
+     is_derive (fun s => cb3_v2 (a + s * ea) (b + s * eb)) 0 (cb3_p2a 0 a b * ea + cb3_p2b 0 a b * eb) /\
+     is_derive (fun s => cb3_v3 (a + s * ea) (b + s * eb)) 0 (cb3_p3a 0 a b * ea + cb3_p3b 0 a b * eb)) /\
+  (forall x d, length d = length x ->
+     is_derive (fun s => cb3_s1 (along Rops x s d)) 0 (Rdot (chain_g Rops cb3_p1a cb3_p1b 0 (bias2 Rops x) x) d) /\
+     is_derive (fun s => cb3_s2 (along Rops x s d)) 0 (Rdot (chain_g Rops cb3_p2a cb3_p2b 0 (bias2 Rops x) x) d) /\
+     is_derive (fun s => cb3_s3 (along Rops x s d)) 0 (Rdot (chain_g Rops cb3_p3a cb3_p3b 0 (bias2 Rops x) x) d)).
+Proof. exact s3_transcendental_deriv. Qed.
+Print Assumptions C06_fn_transcendental_deriv.
+
+(* powell is DECLARED non-convex but is convex (sum of even powers of linear forms): the declaration is pessimistic, not wrong; the linear forms and gradient combinations of the source (translated) are those of the model *)
+Theorem C06_fn_powell_declared_nonconvex_is_convex : declares "fn:powell"%string "no"%string "yes"%string ""%string /\
+  convex_on (powell_v Rops) (powell_g Rops) 0 /\
+  (forall x0 x1 x2 x3 : Z,
+     IZR (src_c06rest_powell_l0 x0 x1 x2 x3) = pw_l0 Rops (IZR x0) (IZR x1) /\
+     IZR (src_c06rest_powell_l1 x0 x1 x2 x3) = pw_l1 Rops (IZR x2) (IZR x3) /\
+     IZR (src_c06rest_powell_l2 x0 x1 x2 x3) = pw_l2 Rops (IZR x1) (IZR x2) /\
+     IZR (src_c06rest_powell_l3 x0 x1 x2 x3) = pw_l3 Rops (IZR x0) (IZR x3) /\
+     IZR (src_c06rest_powell_g0 x0 x1 x2 x3) = IZR x0 + IZR x3 /\
+     IZR (src_c06rest_powell_g1 x0 x1 x2 x3) = IZR x0 * 10 + IZR x2 /\
+     IZR (src_c06rest_powell_g2 x0 x1 x2 x3) = IZR x1 - 2 * IZR x2 /\
+     IZR (src_c06rest_powell_g3 x0 x1 x2 x3) = - IZR x1 - IZR x3).
+Proof. exact s3_fn_powell. Qed.
+Print Assumptions C06_fn_powell_declared_nonconvex_is_convex.
+
+(* fn:cauchy ln(1 + |x|^2): declared non-convex, witness x = 1, z = 7 *)
+Theorem C06_fn_cauchy_declared_nonconvex : declares "fn:cauchy"%string "no"%string "yes"%string ""%string /\ not_convex_on fcauchy_v fcauchy_g.
+Proof. exact s3_fn_cauchy. Qed.
+Print Assumptions C06_fn_cauchy_declared_nonconvex.
+
+(* cauchy / savage / tangent loss kernels and the elastic-net cauchy loss: declared non-convex, one witness each *)
+Theorem C06_loss_declared_nonconvex :
+  declares "loss:cauchy"%string "no"%string "yes"%string ""%string /\ kernel_not_convex kr_cauchy_v kr_cauchy_g /\
+  declares "loss:savage"%string "no"%string "yes"%string ""%string /\ kernel_not_convex kr_savage_v kr_savage_g /\
+  declares "loss:tangent"%string "no"%string "yes"%string ""%string /\ kernel_not_convex kr_tangent_v kr_tangent_g /\
+  declares "enet-loss:cauchy"%string "no"%string "no"%string ""%string /\ kernel_not_convex kr_ecauchy_v kr_ecauchy_g /\
+  (forall t o, kr_ecauchy_v t o = 2 * kr_cauchy_v t o /\ kr_ecauchy_g t o = 2 * kr_cauchy_g t o).
+Proof. exact s3_loss_nonconvex. Qed.
+Print Assumptions C06_loss_declared_nonconvex.
+
+(* functional constraints forward the wrapped function's flags (translated kernels) and value / gradient: convex whenever the wrapped function satisfies the inequality *)
+Theorem C06_cons_functional_convex :
+  declares "cons:functional"%string "constraint.m_function->convex()"%string "constraint.m_function->smooth()"%string "constraint.m_function->strong_convexity()"%string /\
+  (forall (b : bool) (z : Z), functional_convex b = b /\ functional_smooth b = b /\ functional_strong_convexity z = z) /\
+  (forall (fconvex : bool) f g mu, (fconvex = true -> convex_on f g mu) ->
+     functional_convex fconvex = true -> convex_on (cons_functional_v f) (cons_functional_g g) mu).
+Proof. exact s3_cons_functional. Qed.
+Print Assumptions C06_cons_functional_convex.
+
+(* gboost grads_function_t: value = mean of the per-sample losses over the concatenated outputs, gradient = the per-sample gradients / n: a genuine objective, convex for every convex loss *)
+Theorem C06_ml_gboost_grads_convex : declares "ml:gboost-grads"%string "loss.convex()"%string "loss.smooth()"%string ""%string /\
+  (forall b : bool, grads_convex b = b) /\
+  (forall D L G, loss_convex_on D L G -> (forall t o, D t o -> length (G t o) = length o) ->
+   forall ts k x z, length x = (length ts * k)%nat -> length z = length x -> gr_ok D ts k x ->
+   grads_v Rops L ts k z >= grads_v Rops L ts k x + Rdot (grads_g Rops G ts k x) (Rvsub z x)).
+Proof. exact s3_ml_grads. Qed.
+Print Assumptions C06_ml_gboost_grads_convex.
+
+(* surrogate FIT objective sum_i L(y_i, phi(p_i).x): convex for every convex loss; the feature rows the constructor fills are admissible samples; its size expression is 1 + n + n(n+1)/2 *)
+Theorem C06_ml_surrogate_fit_convex : declares "ml:quadratic-surrogate-fitting-function"%string "loss.convex()"%string "loss.smooth()"%string ""%string /\
+  (forall b : bool, surrogate_fit_convex b = b) /\
+  (forall D L G data x z n, loss_convex_on D L G -> length x = n -> length z = n -> List.Forall (sample_ok D n x) data ->
+     fit_v Rops L data z >= fit_v Rops L data x + Rdot (fit_g Rops G data x) (Rvsub z x)) /\
+  (forall ps ys np x, List.Forall (fun p : list R => length p = np) ps ->
+     List.Forall (sample_ok (fun _ _ => True) (1 + np + tri np) x) (fit_data Rops ps ys)) /\
+  (forall d : Z, (0 <= d)%Z -> src_c06_surrogate_fit_size d = Z.of_nat (1 + Z.to_nat d + tri (Z.to_nat d))).
+Proof. exact s3_ml_surrogate_fit. Qed.
+Print Assumptions C06_ml_surrogate_fit_convex.
+
+(* the quadratic surrogate m . phi(x), declared non-convex for every model: exact expansion (gradient loops = derivative, remainder = the quadratic part at d, homogeneous of degree 2); not convex for m = (0,0,-1), convex for m = (0,0,1) *)
+Theorem C06_ml_surrogate_quadratic : declares "ml:quadratic-surrogate-function"%string "no"%string "yes"%string ""%string /\
+  (forall m x z, length z = length x -> length m = (1 + length x + tri (length x))%nat ->
+     sur_v Rops m z = sur_v Rops m x + Rdot (sur_g Rops m x) (Rvsub z x) + sur_q Rops m (Rvsub z x)) /\
+  (forall s d, quadfeat Rops (Rvscale s d) = Rvscale (s * s) (quadfeat Rops d)) /\
+  (exists m x z, length z = length x /\ length m = (1 + length x + tri (length x))%nat /\
+     sur_v Rops m z < sur_v Rops m x + Rdot (sur_g Rops m x) (Rvsub z x)) /\
+  (forall x z, length x = 1%nat -> length z = 1%nat ->
+     sur_v Rops [0; 0; 1] z >= sur_v Rops [0; 0; 1] x + Rdot (sur_g Rops [0; 0; 1] x) (Rvsub z x)) /\
+  (forall i : Z, src_c06rest_surrogate_jstart i = i).
+Proof. exact s3_ml_surrogate. Qed.
+Print Assumptions C06_ml_surrogate_quadratic.
+
+(* maxquad AS CONSTRUCTED: the fill of the source (mirrored off-diagonal entries, diagonal = own non-negative term + sum of |off-diagonal| of the row) gives symmetric positive semi-definite pieces whatever the entries are; hence function_maxquad_t is convex unconditionally *)
+Theorem C06_fn_maxquad_constructed_convex : declares "fn:maxquad"%string "yes"%string "no"%string "0.0"%string /\
+  (forall e dg n b, (forall i, 0 <= dg i) -> length b = n -> mq_ok n (mqf_matrix Rops e dg n, b)) /\
+  (forall n kd, List.Forall (mq_ok n) (mq_pieces n kd)) /\
+  (forall n kd, convex_on_n n (maxquad_v Rops (mq_pieces n kd)) (maxquad_g Rops (mq_pieces n kd)) 0) /\
+  (forall i j, mq_offdiag i j = negb (Nat.eqb i j) /\ mq_assigned_in_row i j = Nat.ltb i j) /\
+  (forall i : Z, src_c06rest_maxquad_si i = (i + 1)%Z /\ src_c06rest_maxquad_sj i = (i + 1)%Z /\
+                 src_c06rest_maxquad_sk i = (i + 1)%Z /\ src_c06rest_maxquad_jstart i = (i + 1)%Z).
+Proof. exact s3_fn_maxquad_constructed. Qed.
+Print Assumptions C06_fn_maxquad_constructed_convex.
+
+(* ---- non-vacuity of the second extension ---- *)
+Example C06_nonvacuous_taylor :   (* rosenbrock at x = (1, 2), d = (1, -1): the coefficients are not all zero; f(x + d) = f(x) + g.d + R2 + R3 + R4 = 2501 *)
+  length [1; -1] = length [1; 2] /\ rosenbrock_v Rops [1; 2] = 100 /\ Rdot (rosenbrock_g Rops [1; 2]) [1; -1] = -600 /\
+  rosenbrock_r2 Rops [1; 2] [1; -1] = 701 /\ rosenbrock_r3 Rops [1; 2] [1; -1] = 600 /\ rosenbrock_r4 Rops [1; 2] [1; -1] = 100 /\
+  rosenbrock_v Rops [2; 1] = 901.
+Proof.
+  repeat split; unfold rosenbrock_v, rosenbrock_g, rosenbrock_r2, rosenbrock_r3, rosenbrock_r4, rosen_phi, rosen_pa, rosen_pb, rosen_c2, rosen_c3, rosen_c4, bias2, dot;
+    simpl; unfold ci; rops; rewrite ?Rinv_1; lra.
+Qed.
+
+Example C06_nonvacuous_transcendental_deriv :   (* hypotheses satisfiable; the derivative of exp(1 + x^2) at x = 1 along d = 1 is 2 e^2 *)
+  length [1] = length [1] /\ [1] <> @nil R /\ Rdot (fexp_g [1]) [1] = 2 * exp 2 /\ rows_len (length [0]) [[1]; [-1]] /\ length [0; 0] = length [[1]; [-1]].
+Proof.
+  split; [reflexivity|]. split; [discriminate|]. split.
+  - unfold fexp_g, fexp_v, dot, vscale; simpl; rops. replace (1 + (1 * 1 + 0) / 1) with 2 by lra. lra.
+  - split; [repeat constructor | reflexivity].
+Qed.
+
+Example C06_nonvacuous_powell : powell_v Rops [1; 0; 0; 1] = 6 /\ powell_v Rops [3; -1; 0; 1] = 215 /\ Rdot (powell_g Rops [1; 0; 0; 1]) [1; 1; 1; 1] = 22.
+Proof.
+  split; [|split]; unfold powell_v, powell_g, pw_l0, pw_l1, pw_l2, pw_l3, dot; cbn [sum2 map]; unfold ci; rops; rewrite ?Rinv_1; lra.
+Qed.
+
+Example C06_nonvacuous_nonconvex_witnesses :   (* the witness numbers: ln 50 < ln 2 + 6; savage at 0 is 1/4 with slope -1/4; tangent at 0 is 1 with slope -4 *)
+  fcauchy_v [7] = ln 50 /\ fcauchy_v [1] = ln 2 /\ fcauchy_g [1] = [1] /\ kr_savage_v 1 0 = / 4 /\ kr_savage_g 1 0 = - / 4 /\
+  kr_tangent_v 1 0 = 1 /\ kr_tangent_g 1 0 = -4.
+Proof.
+  unfold fcauchy_v, fcauchy_g, kr_savage_v, kr_savage_g, kr_tangent_v, kr_tangent_g, dot, vscale; simpl; rops.
+  replace (1 * 0) with 0 by ring. replace (- (1) * 0) with 0 by ring. rewrite exp_0, atan_0.
+  repeat split; try (f_equal; lra); try lra.
+Qed.
+
+Example C06_nonvacuous_functional :   (* a wrapped function that declares convex and is: the sphere; the forwarded flag is true *)
+  functional_convex true = true /\ convex_on (cons_functional_v (sphere_v Rops)) (cons_functional_g (sphere_g Rops)) 2.
+Proof.
+  split; [reflexivity|]. apply (cons_functional_convex true); [|reflexivity]. intros _ x z H. apply sphere_convex, H.
+Qed.
+
+Example C06_nonvacuous_grads :   (* two samples with one output each, mae: hypotheses satisfiable, value = mean of the two losses *)
+  loss_convex_on (fun t o => length t = length o) (loss_v Rops (k_mae_v Rops)) (loss_g (k_mae_g Rops)) /\
+  length [1; 5] = (length [[0]; [2]] * 1)%nat /\ gr_ok (fun t o => length t = length o) [[0]; [2]] 1 [1; 5] /\
+  grads_v Rops (loss_v Rops (k_mae_v Rops)) [[0]; [2]] 1 [1; 5] = 2.
+Proof.
+  split; [intros t o o' _ Hl; apply loss_subgrad; [exact k_mae_subgrad | exact Hl]|]. split; [reflexivity|]. split; [simpl; auto|].
+  unfold grads_v, inv_nat, loss_v, k_mae_v, pabs. cbn [gr_sum firstn skipn sum2 length o_add o_sub o_mul o_opp o_ltb o_zero o_ofQ Rops Pos.of_nat Pos.succ].
+  unfold Q2R. cbn [Qnum Qden]. decide_tests. lra.
+Qed.
+
+Example C06_nonvacuous_surrogate :   (* one parameter: features (1, p, p^2); model (1, 2, 3) at x = 2: 1 + 4 + 12 = 17, gradient 2 + 2*3*2 = 14; sizes match *)
+  p2_row Rops [2] = [1; 2; 2 * 2] /\ sur_v Rops [1; 2; 3] [2] = 17 /\ sur_g Rops [1; 2; 3] [2] = [2 + (3 * 2 + 0 + 2 * 3 + 0)] /\
+  length [1; 2; 3] = (1 + length [2] + tri (length [2]))%nat /\ sur_q Rops [1; 2; 3] [5] = 75 /\ src_c06_surrogate_fit_size 1 = 3%Z.
+Proof.
+  repeat split; unfold sur_v, sur_g, sur_q, p2_row, vadd, vscale, zeros; simpl; unfold dot; simpl; rops; try lra.
+Qed.
+
+Example C06_nonvacuous_maxquad_constructed :   (* the 2 x 2 fill with off-diagonal entry -3 and own diagonal terms 1, 2: [[1+3, -3], [-3, 2+3]]; the real pieces have non-negative own terms *)
+  mqf_matrix Rops (fun _ _ => -3) (fun i => INR (S i)) 2 = [[1 + (- -3 + 0); -3]; [-3; (1 + 1) + (- -3 + 0)]] /\ 0 <= mq_dg 0 2 1 /\
+  length (mq_pieces 2 5) = 5%nat.
+Proof.
+  split; [|split; [apply mq_dg_nonneg | reflexivity]].
+  unfold mqf_matrix, mqf_offsum, mqf_entry, mq_offdiag, mq_assigned_in_row, pabs. cbn. decide_tests. reflexivity.
+Qed.
